@@ -7,7 +7,7 @@
  "annotate": ["alg/crc32c.c"],
  "defines": ["VERIF_HALLOC"],
  "loop_contracts": false,
- "backend": "z3",
+ "backend": "cvc5",
  "cbmc": ["--object-bits", "12"],
  "timeout": 300,
  "assumptions": ["table facts enter only through the contracts of crc_ref_byte, crc_lemma_lin, crc_lemma_next (each enforced in its own group)"]
